@@ -19,7 +19,8 @@ def split_allocation_recursive(S, k, fixed):
         S.ensure("split.measure_decreases", sand(lv >= 0, lv < levels))
         calls.append((r, al, d, lv))
         return split_stub(S)(r, al, d, lv)
-    S.patch(Allocation, "_split_allocation", staticmethod(rec))
+    if S.mode == "sym":
+        S.patch(Allocation, "_split_allocation", staticmethod(rec))
     out = S.call(REAL_SPLIT, rect, alloc, depth, levels)
     S.ensure("split.no_raise", out.ok)
     if not out.ok:
@@ -130,7 +131,8 @@ def refine_rejects_nonpositive_levels(S):
     S.ensure("refine.rejects_levels<=0", out.raised(AssertionError))
 
 
-@contract(P, functions=[A + "uniform_refinement_depth"], params=[dict(k=k, fixed=f) for k in (0, 1, 2) for f in (False, True)])
+@contract(P, functions=[A + "uniform_refinement_depth"], params=[dict(k=k, fixed=f) for k in (0, 1, 2) for f in (False, True)],
+          crosscheck=False)   # the per-cell bookkeeping (marks) exists only with the contract stub: no faithful concrete counterpart
 def uniform_per_cell(S, k, fixed):
     """uniform_refinement_depth() on {arbitrary cell, any other cell}: the other cell makes the target depth range over
     every value >= the cell's depth; obligations are stated for the first cell's contribution."""
@@ -146,7 +148,8 @@ def uniform_per_cell(S, k, fixed):
         r = split_stub(S)(rect, alloc, depth, levels)
         marks.append((rect, r))
         return r
-    S.patch(Allocation, "_split_allocation", staticmethod(stub))
+    if S.mode == "sym":
+        S.patch(Allocation, "_split_allocation", staticmethod(stub))
     out = S.call(a.uniform_refinement_depth)
     S.ensure("uniform.no_raise", out.ok)
     if not out.ok:
@@ -155,6 +158,10 @@ def uniform_per_cell(S, k, fixed):
     if out.value is a:
         S.ensure("uniform.identity_only_when_depths_equal", seq(cell[2], other[2]))
         return
+    if S.mode != "sym":      # concrete replay: the real recursion ran; the cell's pieces are those inside its box
+        B = box(cell[0])
+        marks = [(cell[0], [d for d in out.value.captured if box_inside(box(d[0]), B) and (d[1].keys() == cell[1].keys())])]
+        marks.append((other[0], []))
     mine = [r for rect, r in marks if rect is cell[0]]
     S.ensure("uniform.one_contribution_per_cell", len(mine) == 1 and len(marks) == 2)
     if len(mine) != 1:
